@@ -6,6 +6,8 @@ package fatops
 
 import (
 	"fmt"
+	"io"
+	"os"
 	"strings"
 
 	"verif/harness/internal/hx"
@@ -19,12 +21,19 @@ func Run(c *hx.Ctx) {
 		prop = "both"
 	}
 	e := &eng{c: c, prop: prop}
+	e.emptyAsFound = probeEmptyWrite()
+	if e.emptyAsFound {
+		c.Stat("zero_length_write.as-found(extends-or-panics-past-eof)")
+	} else {
+		c.Stat("zero_length_write.early-return-present")
+	}
 	if c.Args["part"] == "tree" { // development aid: only the tree-model correspondence
 		r := c.Rng.Fork()
 		e.corrTree(r)
 		e.corrDirWrs(r)
 		return
 	}
+	e.zeroLength()
 	e.exhaustive()
 	e.random()
 	e.fillCycles()
@@ -44,7 +53,43 @@ func Run(c *hx.Ctx) {
 type eng struct {
 	c    *hx.Ctx
 	prop string
+	// File.Write of an empty buffer is not an early return in the tree (finding
+	// fat-empty-write-not-noop): past EOF it extends the file, at a cluster boundary at or past EOF
+	// it panics. Probed per run; while true, zero-length writes are generated off the trigger only.
+	emptyAsFound bool
 }
+
+// probeEmptyWrite: Seek(10) + Write(nil) on a new empty file leaves it empty once Write returns
+// early for an empty buffer; as found the file is 10 bytes long afterwards.
+func probeEmptyWrite() (asFound bool) {
+	v, err := mkVol(volCfg{Kind: 12, Size: 4 * mib})
+	if err != nil {
+		return true
+	}
+	_ = safely(func() error {
+		f, err := v.fs.OpenFile("p.bin", os.O_CREATE|os.O_RDWR)
+		if err != nil {
+			return err
+		}
+		if _, err := f.Seek(10, io.SeekStart); err != nil {
+			return err
+		}
+		_, _ = f.Write(nil)
+		if st, err := f.Stat(); err == nil && st.Size() != 0 {
+			asFound = true
+		}
+		return f.Close()
+	})
+	return
+}
+
+// zeroTrigger: the inputs on which an empty Write is not a no-op as found (fat-empty-write-not-noop):
+// the offset lies past EOF (the file is extended with zeros to the offset), or at/after EOF on a
+// positive multiple of the cluster size (clusters[offset/bpc]: index out of range).
+func zeroTrigger(size, off int64, bpc int) bool {
+	return off > size || (off > 0 && off >= size && off%int64(bpc) == 0)
+}
+
 
 const (
 	kib = int64(1024)
@@ -101,6 +146,100 @@ func bpcOf(v *vol) int { return v.prevBPC() }
 func (v *vol) prevBPC() int {
 	_, bpc, _, _, _, _ := v.base.VerifGeom()
 	return bpc
+}
+
+// ---------------------------------------------------------------- zero-length writes (deepen8)
+
+// zeroLength: Write(nil) / Write([]byte{}) on a new empty file, on a file emptied by O_TRUNC, at
+// EOF and inside a non-empty file (also with a size that is a whole number of clusters), through
+// O_APPEND, and - once Write returns early for an empty buffer - after a Seek beyond EOF; every one
+// of them must change nothing, and the NEXT file / directory created must get clusters nobody
+// owns. Tree oracle and raw checker after every step (fullCompare).
+func (e *eng) zeroLength() {
+	c := e.c
+	for vi, cfg := range e.vols(true) {
+		for variant := 0; variant < 2; variant++ {
+			id := fmt.Sprintf("z%d.%d", vi, variant)
+			if !c.Want(id) {
+				continue
+			}
+			v, err := mkVol(cfg)
+			if err != nil {
+				c.Fail(id, "-", "Create failed: "+err.Error(), cfg.String())
+				continue
+			}
+			h := newHist(c, e.prop, id, v)
+			bpc := v.prevBPC()
+			isNil := variant == 0
+			r := c.Rng
+			z := func(kind, p string, off int64, create bool) *op {
+				return &op{Kind: kind, Path: p, Off: off, Create: create, Zero: true, Nil: isNil}
+			}
+			w := func(p string, off int64, n int) *op {
+				return &op{Kind: "write", Path: p, Off: off, Data: pattern(r, n), Create: true}
+			}
+			steps := []*op{
+				// a new empty file: its only cluster must stay its own
+				z("write", "Z.TXT", 0, true),
+				{Kind: "mkdir", Path: "zd"},
+				w("zd/N.TXT", 0, bpc+1),
+				w("Z.TXT", 0, 10),
+				z("write", "Z.TXT", 0, false), // offset 0 of a non-empty file
+				// a file emptied by O_TRUNC, then the empty Write through the same handle
+				w("T.TXT", 0, 2*bpc+5),
+				z("trunc", "T.TXT", 0, false),
+				w("N2.TXT", 0, bpc+3),
+				w("T.TXT", 0, 7),
+				// a one-cluster file emptied by O_TRUNC
+				w("T1.TXT", 0, bpc),
+				z("trunc", "T1.TXT", 0, false),
+				{Kind: "create", Path: "N3.TXT"},
+				w("N3.TXT", 0, 2*bpc),
+				w("T1.TXT", 0, 3),
+				// a non-empty file: at EOF, inside (on and off a cluster boundary), through O_APPEND
+				w("F.TXT", 0, 2*bpc+9),
+				z("write", "F.TXT", int64(2*bpc+9), false),
+				z("write", "F.TXT", int64(bpc), false),
+				z("write", "F.TXT", 5, false),
+				z("write", "F.TXT", int64(bpc+1), false),
+				z("append", "F.TXT", 0, false),
+				// a size that is a whole number of clusters: inside, on the boundary between its clusters
+				w("K.TXT", 0, 2*bpc),
+				z("write", "K.TXT", int64(bpc), false),
+				z("write", "K.TXT", int64(2*bpc-1), false),
+				// an empty file in a subdirectory, then a sibling directory
+				z("write", "zd/E.TXT", 0, true),
+				{Kind: "mkdir", Path: "zd/after"},
+				w("zd/after/x.bin", 0, bpc+2),
+				w("zd/E.TXT", 0, bpc-1),
+			}
+			if !e.emptyAsFound {
+				// (as found these extend the file or panic: finding fat-empty-write-not-noop, replayed as a dedicated witness)
+				steps = append(steps,
+					z("write", "P.TXT", 10, true),
+					z("write", "P.TXT", int64(bpc), false),
+					z("write", "P.TXT", int64(3*bpc+1), false),
+					z("write", "K.TXT", int64(2*bpc), false),
+					z("append", "K.TXT", 0, false),
+					z("write", "F.TXT", int64(4*bpc), false),
+					w("Q.TXT", 0, bpc+1),
+					w("P.TXT", 0, 5),
+				)
+			}
+			for _, o := range steps {
+				if !h.step(o) {
+					break
+				}
+			}
+			h.closeAll()
+			h.emitSpecTie()
+			c.Stat("zero-length-histories")
+			c.Distinct(fmt.Sprintf("z|%s|%d", cfg, variant))
+			if vi == 0 && variant == 0 {
+				c.Sample(fmt.Sprintf("zero-length history %s on %s: %s", id, cfg, opsString(h.ops[:min(len(h.ops), 8)])))
+			}
+		}
+	}
 }
 
 // ---------------------------------------------------------------- exhaustive
@@ -306,6 +445,10 @@ func (e *eng) randOp(r *hx.Rng, h *hist, st *randState, holePct int) *op {
 		}
 		if r.Chance(holePct) {
 			off = cur + 1 + r.Intn(bpc+3) // past EOF
+		}
+		if r.Chance(12) && !(e.emptyAsFound && zeroTrigger(int64(cur), int64(off), h.v.prevBPC())) {
+			// a zero-length write: nothing may change (off the trigger of fat-empty-write-not-noop while that is in the tree)
+			return &op{Kind: "write", Path: p, Off: int64(off), Create: r.Chance(30), Zero: true, Nil: r.Bool()}
 		}
 		return &op{Kind: "write", Path: p, Off: int64(off), Data: pattern(r, 1+sizeClasses(r, bps, bpc)), Create: r.Chance(30)}
 	case k < 60:
